@@ -8,10 +8,6 @@
 (declare-fun le_int (Bytes) Int)                      ; little-endian integer value of a byte string
 (declare-const bytes_empty_row (Array Int Bytes))
 (assert (forall ((k Int)) (! (= (select bytes_empty_row k) bytes_empty) :pattern ((select bytes_empty_row k)))))
-; monoid laws, oriented to the right-nested normal form
-(assert (forall ((a Bytes) (b Bytes) (c Bytes)) (! (= (cat (cat a b) c) (cat a (cat b c))) :pattern ((cat (cat a b) c)))))
-(assert (forall ((a Bytes)) (! (= (cat bytes_empty a) a) :pattern ((cat bytes_empty a)))))
-(assert (forall ((a Bytes)) (! (= (cat a bytes_empty) a) :pattern ((cat a bytes_empty)))))
 (assert (forall ((r (Array Int Int)) (o Int)) (! (= (bseq r o 0) bytes_empty) :pattern ((bseq r o 0)))))
 ; 32-byte strings: constructor from the 32 byte values; bseq of 32 cells is that constructor applied to the cells
 (declare-fun bytes32 (Int Int Int Int Int Int Int Int Int Int Int Int Int Int Int Int Int Int Int Int Int Int Int Int Int Int Int Int Int Int Int Int) Bytes)
